@@ -138,6 +138,7 @@ Section LayoutFacts.
   Context {A B : Type}.
   Notation smod := (smod A).
   Notation snet := (snet A B).
+  Notation sess := (sess A B).
   Variable radius_of : smod -> Qc.
 
   Lemma place_all_nth W H : forall (ms : list smod) xs ys ms',
@@ -162,11 +163,40 @@ Section LayoutFacts.
 
   Definition shape_of (r : Rect) := (rw r, rh r, fixed r, hard r, region r, rloc r).
 
+  (* ---------------- recenter_rectangles ---------------- *)
+  (* every rectangle is moved by (centre - current area-weighted centre), in x AND in y, whatever the
+     two increments are (zero, tiny, large - independently of each other) *)
+  Lemma recenter_exact rs c rs' : recenter rs c = Ok rs' ->
+    rects_area rs <> 0 /\ rs' = map (shift (fst c - gx rs) (snd c - gy rs)) rs.
+  Proof.
+    unfold recenter. intros Hr. destruct (Qceqb (rects_area rs) 0) eqn:E; [discriminate|].
+    apply Qceqb_false in E. inversion Hr. split; [exact E|reflexivity].
+  Qed.
+
+  Lemma recenter_defined rs c : rects_area rs <> 0 ->
+    recenter rs c = Ok (map (shift (fst c - gx rs) (snd c - gy rs)) rs).
+  Proof.
+    intros E. unfold recenter. destruct (Qceqb (rects_area rs) 0) eqn:E0.
+    - apply Qceqb_true in E0. contradiction.
+    - reflexivity.
+  Qed.
+
   Lemma recenter_rigid rs c rs' : recenter rs c = Ok rs' ->
     exists dx dy, rs' = map (shift dx dy) rs.
+  Proof. intros Hr. apply recenter_exact in Hr. destruct Hr as [_ E]. eexists; eexists; exact E. Qed.
+
+  (* per rectangle: same shape, role and region; the displacement of each axis is the increment of
+     that axis - an axis stands still exactly when ITS increment is zero, whatever the other one is *)
+  Lemma recenter_nth rs c rs' i r : recenter rs c = Ok rs' -> nth_error rs i = Some r ->
+    exists r', nth_error rs' i = Some r' /\ shape_of r' = shape_of r /\
+      cx r' = cx r + (fst c - gx rs) /\ cy r' = cy r + (snd c - gy rs) /\
+      (cx r' = cx r <-> fst c = gx rs) /\ (cy r' = cy r <-> snd c = gy rs).
   Proof.
-    unfold recenter. intros Hr. destruct (Qceqb (rects_area rs) 0); [discriminate|].
-    inversion Hr. eexists; eexists; reflexivity.
+    intros Hr Hn. apply recenter_exact in Hr. destruct Hr as [_ ->].
+    exists (shift (fst c - gx rs) (snd c - gy rs) r). rewrite nth_error_map, Hn. cbn [option_map].
+    unfold shift; cbn [cx cy]. splits; try reflexivity.
+    - generalize (gx rs), (fst c), (cx r). intros g f x. split; intros E; qlra.
+    - generalize (gy rs), (snd c), (cy r). intros g f x. split; intros E; qlra.
   Qed.
 
   Lemma shift_shape dx dy rs : map shape_of (map (shift dx dy) rs) = map shape_of rs.
@@ -174,6 +204,16 @@ Section LayoutFacts.
 
   Lemma shift_area dx dy rs : rects_area (map (shift dx dy) rs) = rects_area rs.
   Proof. unfold rects_area. rewrite map_map. f_equal. Qed.
+
+  Lemma shift_zero r : shift 0 0 r = r.
+  Proof. destruct r as [x y w h f hd rg lc]. unfold shift; cbn [cx cy rw rh fixed hard region rloc]. f_equal; ring. Qed.
+  Lemma map_shift_zero rs : map (shift 0 0) rs = rs.
+  Proof. induction rs as [|r rs IH]; cbn [map]; [reflexivity|]. rewrite shift_zero, IH. reflexivity. Qed.
+  Lemma shift_shift dx1 dy1 dx2 dy2 r : shift dx2 dy2 (shift dx1 dy1 r) = shift (dx1 + dx2) (dy1 + dy2) r.
+  Proof. unfold shift; cbn [cx cy rw rh fixed hard region rloc]. f_equal; ring. Qed.
+  Lemma map_shift_shift dx1 dy1 dx2 dy2 rs :
+    map (shift dx2 dy2) (map (shift dx1 dy1) rs) = map (shift (dx1 + dx2) (dy1 + dy2)) rs.
+  Proof. rewrite map_map. apply map_ext. intros r. apply shift_shift. Qed.
 
   Lemma Qcsum_shift_x dx dy rs :
     Qcsum (map (fun r => cx r * area r) (map (shift dx dy) rs)) =
@@ -190,18 +230,292 @@ Section LayoutFacts.
     rewrite IH. unfold shift, area; cbn [cy rw rh]. ring.
   Qed.
 
+  (* the area-weighted centre moves with the rectangles *)
+  Lemma gx_shift dx dy rs : rects_area rs <> 0 -> gx (map (shift dx dy) rs) = gx rs + dx.
+  Proof. intros E. unfold gx. rewrite shift_area, Qcsum_shift_x. field. exact E. Qed.
+  Lemma gy_shift dx dy rs : rects_area rs <> 0 -> gy (map (shift dx dy) rs) = gy rs + dy.
+  Proof. intros E. unfold gy. rewrite shift_area, Qcsum_shift_y. field. exact E. Qed.
+
   (* after recentring, the area-weighted centre of the rectangles is the centre that was assigned *)
   Lemma recenter_centroid rs c rs' : recenter rs c = Ok rs' ->
     rects_area rs' = rects_area rs /\ rects_area rs <> 0 /\
     Qcsum (map (fun r => cx r * area r) rs') = fst c * rects_area rs' /\
     Qcsum (map (fun r => cy r * area r) rs') = snd c * rects_area rs'.
   Proof.
-    unfold recenter. intros Hr. destruct (Qceqb (rects_area rs) 0) eqn:E; [discriminate|].
-    apply Qceqb_false in E. inversion Hr; subst rs'; clear Hr.
-    rewrite shift_area, Qcsum_shift_x, Qcsum_shift_y. splits; auto; field; exact E.
+    intros Hr. apply recenter_exact in Hr. destruct Hr as [E ->].
+    rewrite shift_area, Qcsum_shift_x, Qcsum_shift_y. unfold gx, gy. splits; auto; field; exact E.
   Qed.
 
-  Definition has_centre (m : smod) : bool := match s_centre m with Some _ => true | None => false end.
+  Lemma recenter_g rs c rs' : recenter rs c = Ok rs' -> gx rs' = fst c /\ gy rs' = snd c.
+  Proof.
+    intros Hr. apply recenter_exact in Hr. destruct Hr as [E ->].
+    rewrite gx_shift, gy_shift by exact E. split; ring.
+  Qed.
+
+  (* already there: nothing moves (both increments zero) *)
+  Lemma recenter_fixpoint rs c : rects_area rs <> 0 -> gx rs = fst c -> gy rs = snd c -> recenter rs c = Ok rs.
+  Proof.
+    intros E Ex Ey. rewrite (recenter_defined rs c E), Ex, Ey.
+    replace (fst c - fst c) with 0 by ring. replace (snd c - snd c) with 0 by ring.
+    rewrite map_shift_zero. reflexivity.
+  Qed.
+
+  (* recentring twice to the same centre is recentring once *)
+  Lemma recenter_idem rs c rs' : recenter rs c = Ok rs' -> recenter rs' c = Ok rs'.
+  Proof.
+    intros Hr. destruct (recenter_g _ _ _ Hr) as [Ex Ey]. destruct (recenter_centroid _ _ _ Hr) as (Ea & E & _).
+    apply recenter_fixpoint; auto. rewrite Ea. exact E.
+  Qed.
+
+  (* a coincidence in one axis: that axis stands still, the other axis moves by its full increment *)
+  Lemma recenter_axis_x rs c rs' i r r' : recenter rs c = Ok rs' -> gx rs = fst c ->
+    nth_error rs i = Some r -> nth_error rs' i = Some r' -> cx r' = cx r /\ cy r' = cy r + (snd c - gy rs).
+  Proof.
+    intros Hr Ex Hn Hn'. destruct (recenter_nth _ _ _ _ _ Hr Hn) as (r1 & H1 & _ & _ & Hy & Hx & _).
+    rewrite Hn' in H1. inversion H1; subst r1. split; [apply Hx; auto|exact Hy].
+  Qed.
+  Lemma recenter_axis_y rs c rs' i r r' : recenter rs c = Ok rs' -> gy rs = snd c ->
+    nth_error rs i = Some r -> nth_error rs' i = Some r' -> cy r' = cy r /\ cx r' = cx r + (fst c - gx rs).
+  Proof.
+    intros Hr Ey Hn Hn'. destruct (recenter_nth _ _ _ _ _ Hr Hn) as (r1 & H1 & _ & Hx & _ & _ & Hy).
+    rewrite Hn' in H1. inversion H1; subst r1. split; [apply Hy; auto|exact Hx].
+  Qed.
+
+  (* position of a set of rectangles *)
+  Definition centroid_is (rs : list Rect) (c : vec) : Prop :=
+    rects_area rs <> 0 /\
+    Qcsum (map (fun r => cx r * area r) rs) = fst c * rects_area rs /\
+    Qcsum (map (fun r => cy r * area r) rs) = snd c * rects_area rs.
+
+  Lemma centroid_is_g rs c : centroid_is rs c <-> rects_area rs <> 0 /\ gx rs = fst c /\ gy rs = snd c.
+  Proof.
+    unfold centroid_is, gx, gy. split; intros (E & Hx & Hy); splits; auto.
+    - rewrite Hx. field. exact E.
+    - rewrite Hy. field. exact E.
+    - rewrite <- Hx. field. exact E.
+    - rewrite <- Hy. field. exact E.
+  Qed.
+
+  Lemma recenter_centroid_is rs c rs' : recenter rs c = Ok rs' -> centroid_is rs' c.
+  Proof.
+    intros Hr. apply recenter_centroid in Hr. destruct Hr as (Ea & E & Hx & Hy).
+    unfold centroid_is. rewrite Ea in *. auto.
+  Qed.
+
+  (* ---------------- a hard module driven from outside: setter / add_rectangle / recenter ---------------- *)
+  (* one recenter_rectangles() call on the module as it is NOW *)
+  Lemma rc_recenter_step st st' : rc_step RcRecenter st = Ok st' ->
+    exists c, rc_centre st = Some c /\ rc_centre st' = Some c /\ rects_area (rc_rects st) <> 0 /\
+      rc_rects st' = map (shift (fst c - gx (rc_rects st)) (snd c - gy (rc_rects st))) (rc_rects st) /\
+      centroid_is (rc_rects st') c.
+  Proof.
+    unfold rc_step. destruct (rc_centre st) as [c|]; [|discriminate].
+    destruct (recenter (rc_rects st) c) as [rs| | |] eqn:Er; try discriminate.
+    intros Hs. inversion Hs; subst st'; clear Hs. cbn [rc_centre rc_rects].
+    exists c. destruct (recenter_exact _ _ _ Er) as [E Ers]. splits; auto.
+    eapply recenter_centroid_is; eassumption.
+  Qed.
+
+  Lemma rc_run_app ops1 : forall ops2 st,
+    rc_run (ops1 ++ ops2) st = match rc_run ops1 st with Ok st1 => rc_run ops2 st1 | e => e end.
+  Proof.
+    induction ops1 as [|op ops1 IH]; intros ops2 st; cbn [app rc_run]; [reflexivity|].
+    destruct (rc_step op st) as [st1| | |]; auto.
+  Qed.
+
+  (* whatever was done to the module before (centres set, rectangles added, earlier recentrings):
+     after a recenter_rectangles() that returns, the rectangles are those the module had just before
+     the call, all moved by (centre - their area-weighted centre), and they are centred on the centre *)
+  Lemma rc_history ops st st' : rc_run (ops ++ [RcRecenter]) st = Ok st' ->
+    exists st1 c, rc_run ops st = Ok st1 /\ rc_centre st1 = Some c /\ rc_centre st' = Some c /\
+      rc_rects st' = map (shift (fst c - gx (rc_rects st1)) (snd c - gy (rc_rects st1))) (rc_rects st1) /\
+      centroid_is (rc_rects st') c.
+  Proof.
+    rewrite rc_run_app. destruct (rc_run ops st) as [st1| | |] eqn:E1; try discriminate.
+    cbn [rc_run]. destruct (rc_step RcRecenter st1) as [st2| | |] eqn:E2; try discriminate.
+    intros Hs. inversion Hs; subst st2; clear Hs.
+    destruct (rc_recenter_step _ _ E2) as (c & Hc & Hc' & _ & Hr & Hcen).
+    exists st1, c. splits; auto.
+  Qed.
+
+  (* recentring again without touching the module changes nothing *)
+  Lemma rc_recenter_twice st st1 : rc_step RcRecenter st = Ok st1 -> rc_step RcRecenter st1 = Ok st1.
+  Proof.
+    unfold rc_step. destruct (rc_centre st) as [c|]; [|discriminate].
+    destruct (recenter (rc_rects st) c) as [rs| | |] eqn:Er; try discriminate.
+    intros Hs. inversion Hs; subst st1; clear Hs. cbn [rc_centre rc_rects].
+    rewrite (recenter_idem _ _ _ Er). reflexivity.
+  Qed.
+
+  (* ---------------- one call on the object ---------------- *)
+  Lemma wipe_length : forall fx cs, List.length (wipe fx cs) = List.length cs.
+  Proof. induction fx as [|f fx IH]; intros [|c cs]; cbn [wipe List.length]; auto. Qed.
+
+  Lemma wipe_nth_fixed : forall fx cs j, nth_error fx j = Some true -> nth_error (wipe fx cs) j = nth_error cs j.
+  Proof.
+    induction fx as [|f fx IH]; intros [|c cs] j Hf; cbn [wipe]; auto.
+    destruct j as [|j]; cbn [nth_error] in *.
+    - inversion Hf; subst. reflexivity.
+    - apply IH; exact Hf.
+  Qed.
+
+  Lemma wipe_forget (coord : smod -> Qc) : forall ms, wipe (map s_fixed ms) (map coord ms) = map (forget coord) ms.
+  Proof. induction ms as [|m ms IH]; cbn [map wipe]; [reflexivity|]. rewrite IH. reflexivity. Qed.
+
+  Lemma place_fixed W H (m : smod) x y m' : place W H m x y = Ok m' -> s_fixed m' = s_fixed m.
+  Proof.
+    unfold place. intros Hp. destruct (s_hard m && negb (s_fixed m)).
+    - destruct (recenter (s_rects m) (x + W * half, y + H * half)); try discriminate. inversion Hp; reflexivity.
+    - inversion Hp; reflexivity.
+  Qed.
+
+  Lemma place_all_fixed W H : forall (ms : list smod) xs ys ms',
+    place_all W H ms xs ys = Ok ms' -> map s_fixed ms' = map s_fixed ms.
+  Proof.
+    induction ms as [|m ms IH]; intros xs ys ms' Hp.
+    - cbn in Hp. inversion Hp; reflexivity.
+    - destruct xs as [|x xs]; [discriminate|]. destruct ys as [|y ys]; [discriminate|].
+      cbn [place_all] in Hp.
+      destruct (place W H m x y) as [m1| | |] eqn:E1; try discriminate.
+      destruct (place_all W H ms xs ys) as [r| | |] eqn:Er; try discriminate.
+      inversion Hp; subst ms'. cbn [map]. rewrite (IH _ _ _ Er), (place_fixed _ _ _ _ _ _ E1). reflexivity.
+  Qed.
+
+  (* everything the trials + placement guarantee about one module *)
+  Lemma core_module W H nf (ms : list smod) adj fx radius inix iniy ms' i m :
+    layout_core thr rnd produce niter W H nf ms adj fx radius inix iniy = Ok ms' ->
+    List.length fx = List.length inix -> List.length fx = List.length iniy ->
+    nth_error ms i = Some m ->
+    exists x y m', nth_error ms' i = Some m' /\ place W H m x y = Ok m' /\
+      (forall r, nth_error fx i = Some false -> nth_error radius i = Some r -> r <= W * half ->
+                 Qcabs x + r <= W * half) /\
+      (forall r, nth_error fx i = Some false -> nth_error radius i = Some r -> r <= H * half ->
+                 Qcabs y + r <= H * half) /\
+      (forall c0, nth_error fx i = Some true -> nth_error inix i = Some c0 -> x = c0 - W * half) /\
+      (forall c0, nth_error fx i = Some true -> nth_error iniy i = Some c0 -> y = c0 - H * half).
+  Proof.
+    unfold layout_core. intros Hs Lx Ly Hm.
+    destruct (Nat.leb (List.length radius) 2); [discriminate|].
+    destruct (Nat.eqb nf 0 && negb (forallb has_centre ms)); [discriminate|].
+    match type of Hs with context [trials ?wl ?run ?n 0 None] =>
+      destruct (trials wl run n 0%nat None) as [[[c w]|]| | |] eqn:Et; try discriminate end.
+    apply trials_In in Et. destruct Et as [Hb|[t Ht]]; [discriminate|].
+    destruct c as [xs ys]. cbn [fst snd] in *.
+    apply layout_die_post in Ht; auto.
+    destruct Ht as [(_ & Fxx & Bx) (_ & Fxy & By)].
+    destruct (place_all_nth _ _ _ _ _ _ Hs) as [_ N].
+    destruct (N i m Hm) as (x & y & m' & Hx & Hy & Hpl & Hm').
+    exists x, y, m'. splits; auto.
+    - intros r Hf Hr Hle. eapply Bx; eassumption.
+    - intros r Hf Hr Hle. eapply By; eassumption.
+    - intros c0 Hf Hc. rewrite (Fxx i _ Hc Hf) in Hx. inversion Hx; reflexivity.
+    - intros c0 Hf Hc. rewrite (Fxy i _ Hc Hf) in Hy. inversion Hy; reflexivity.
+  Qed.
+
+  Lemma core_frame W H nf (ms : list smod) adj fx radius inix iniy ms' :
+    layout_core thr rnd produce niter W H nf ms adj fx radius inix iniy = Ok ms' ->
+    List.length ms' = List.length ms /\ map s_fixed ms' = map s_fixed ms.
+  Proof.
+    unfold layout_core. intros Hs.
+    destruct (Nat.leb (List.length radius) 2); [discriminate|].
+    destruct (Nat.eqb nf 0 && negb (forallb has_centre ms)); [discriminate|].
+    match type of Hs with context [trials ?wl ?run ?n 0 None] =>
+      destruct (trials wl run n 0%nat None) as [[[c w]|]| | |] eqn:Et; try discriminate end.
+    split; [eapply place_all_nth; eassumption|eapply place_all_fixed; eassumption].
+  Qed.
+
+  (* the object is well formed: the vectors stored at construction have one entry per module *)
+  Definition sess_wf (s : sess) : Prop :=
+    ss_fx s = map s_fixed (ss_mods s) /\ List.length (ss_radius s) = List.length (ss_mods s) /\
+    List.length (ss_cx s) = List.length (ss_mods s) /\ List.length (ss_cy s) = List.length (ss_mods s).
+
+  Lemma sess_centres_length nf (s : sess) : sess_wf s ->
+    List.length (ss_fx s) = List.length (fst (sess_centres nf s)) /\
+    List.length (ss_fx s) = List.length (snd (sess_centres nf s)).
+  Proof.
+    intros (Efx & _ & Lx & Ly). unfold sess_centres. rewrite Efx, map_length.
+    destruct (Nat.eqb nf 0); cbn [fst snd]; rewrite ?wipe_length; auto.
+  Qed.
+
+  Lemma sess_centres_fixed nf (s : sess) j : nth_error (ss_fx s) j = Some true ->
+    nth_error (fst (sess_centres nf s)) j = nth_error (ss_cx s) j /\
+    nth_error (snd (sess_centres nf s)) j = nth_error (ss_cy s) j.
+  Proof.
+    intros Hf. unfold sess_centres. destruct (Nat.eqb nf 0); cbn [fst snd]; auto.
+    split; apply wipe_nth_fixed; exact Hf.
+  Qed.
+
+  Lemma step_module W H nf (s s' : sess) i m :
+    sess_step thr rnd produce niter W H nf s = Ok s' -> sess_wf s -> nth_error (ss_mods s) i = Some m ->
+    exists x y m', nth_error (ss_mods s') i = Some m' /\ place W H m x y = Ok m' /\
+      (s_fixed m = false -> forall r, nth_error (ss_radius s) i = Some r -> r <= W * half -> Qcabs x + r <= W * half) /\
+      (s_fixed m = false -> forall r, nth_error (ss_radius s) i = Some r -> r <= H * half -> Qcabs y + r <= H * half) /\
+      (s_fixed m = true -> forall c0, nth_error (ss_cx s) i = Some c0 -> x = c0 - W * half) /\
+      (s_fixed m = true -> forall c0, nth_error (ss_cy s) i = Some c0 -> y = c0 - H * half).
+  Proof.
+    unfold sess_step. intros Hs Hwf Hm.
+    destruct (layout_core thr rnd produce niter W H nf (ss_mods s) (ss_adj s) (ss_fx s) (ss_radius s)
+                          (fst (sess_centres nf s)) (snd (sess_centres nf s))) as [ms'| | |] eqn:Ec; try discriminate.
+    inversion Hs; subst s'; clear Hs. cbn [ss_mods].
+    destruct (sess_centres_length nf s Hwf) as [Lx Ly].
+    destruct (core_module _ _ _ _ _ _ _ _ _ _ i m Ec Lx Ly Hm) as (x & y & m' & Hm' & Hpl & Bx & By & Fx & Fy).
+    assert (Hfx : nth_error (ss_fx s) i = Some (s_fixed m)).
+    { destruct Hwf as (-> & _). rewrite nth_error_map, Hm. reflexivity. }
+    exists x, y, m'. splits; auto.
+    - intros Hf r Hr Hle. rewrite Hf in Hfx. eapply Bx; eassumption.
+    - intros Hf r Hr Hle. rewrite Hf in Hfx. eapply By; eassumption.
+    - intros Hf c0 Hc. rewrite Hf in Hfx. apply Fx; [exact Hfx|].
+      rewrite (proj1 (sess_centres_fixed nf s i Hfx)). exact Hc.
+    - intros Hf c0 Hc. rewrite Hf in Hfx. apply Fy; [exact Hfx|].
+      rewrite (proj2 (sess_centres_fixed nf s i Hfx)). exact Hc.
+  Qed.
+
+  (* what a call leaves alone: the graph, the nets, the flags and radii stored at construction, the
+     stored centres of the fixed modules *)
+  Lemma step_frame W H nf (s s' : sess) :
+    sess_step thr rnd produce niter W H nf s = Ok s' -> sess_wf s ->
+    sess_wf s' /\ ss_adj s' = ss_adj s /\ ss_nets s' = ss_nets s /\ ss_fx s' = ss_fx s /\
+    ss_radius s' = ss_radius s /\ List.length (ss_mods s') = List.length (ss_mods s) /\
+    (forall j, nth_error (ss_fx s) j = Some true ->
+       nth_error (ss_cx s') j = nth_error (ss_cx s) j /\ nth_error (ss_cy s') j = nth_error (ss_cy s) j).
+  Proof.
+    unfold sess_step. intros Hs Hwf.
+    destruct (layout_core thr rnd produce niter W H nf (ss_mods s) (ss_adj s) (ss_fx s) (ss_radius s)
+                          (fst (sess_centres nf s)) (snd (sess_centres nf s))) as [ms'| | |] eqn:Ec; try discriminate.
+    inversion Hs; subst s'; clear Hs. cbn [ss_mods ss_adj ss_nets ss_fx ss_radius ss_cx ss_cy].
+    destruct (core_frame _ _ _ _ _ _ _ _ _ _ Ec) as [L Fm].
+    destruct (sess_centres_length nf s Hwf) as [Lx Ly].
+    pose proof Hwf as (Efx & Lr & _ & _).
+    splits; auto.
+    - unfold sess_wf; cbn [ss_mods ss_adj ss_nets ss_fx ss_radius ss_cx ss_cy]. rewrite Fm, L. splits; auto.
+      + rewrite <- Lx, Efx, map_length. reflexivity.
+      + rewrite <- Ly, Efx, map_length. reflexivity.
+    - intros j Hf. apply sess_centres_fixed. exact Hf.
+  Qed.
+
+  Lemma init_wf (nl : snet) (s : sess) : sess_init radius_of nl = Ok s ->
+    sess_wf s /\ ss_mods s = s_mods nl /\ ss_adj s = s_adj nl /\ ss_nets s = s_nets nl /\
+    ss_radius s = map radius_of (s_mods nl) /\ ss_cx s = map cx_of (s_mods nl) /\ ss_cy s = map cy_of (s_mods nl) /\
+    (forall m, In m (s_mods nl) -> s_fixed m = true -> exists c, s_centre m = Some c).
+  Proof.
+    unfold sess_init. destruct (forallb (fun m => negb (s_fixed m) || has_centre m) (s_mods nl)) eqn:Ef; [|discriminate].
+    cbn [negb]. intros Hs. inversion Hs; subst s; clear Hs. unfold sess_wf; cbn [ss_mods ss_adj ss_nets ss_fx ss_radius ss_cx ss_cy].
+    rewrite !map_length. splits; auto.
+    intros m Hin Hf. rewrite forallb_forall in Ef. specialize (Ef m Hin). rewrite Hf in Ef. cbn in Ef.
+    unfold has_centre in Ef. destruct (s_centre m) as [c|]; [exists c; reflexivity|discriminate].
+  Qed.
+
+  (* ---------------- a single call on a fresh object: Spectral(...).spectral_layout(...) ---------------- *)
+  Lemma layout_unfold W H nf (nl out : snet) :
+    spectral_layout thr rnd produce niter radius_of W H nf nl = Ok out ->
+    exists s s', sess_init radius_of nl = Ok s /\ sess_step thr rnd produce niter W H nf s = Ok s' /\
+                 out = mkSnet (ss_mods s') (ss_adj s') (ss_nets s').
+  Proof.
+    unfold spectral_layout. intros Hs.
+    destruct (sess_init radius_of nl) as [s| | |] eqn:Ei; try discriminate.
+    destruct (sess_step thr rnd produce niter W H nf s) as [s'| | |] eqn:Es; try discriminate.
+    inversion Hs. exists s, s'. auto.
+  Qed.
 
   (* everything spectral_layout guarantees about one module, given the netlist it returned *)
   Theorem layout_module W H nf (nl out : snet) i m :
@@ -212,45 +526,20 @@ Section LayoutFacts.
       (s_fixed m = false -> radius_of m <= H * half -> Qcabs y + radius_of m <= H * half) /\
       (s_fixed m = true -> exists c, s_centre m = Some c /\ x = fst c - W * half /\ y = snd c - H * half).
   Proof.
-    unfold spectral_layout. intros Hs Hm.
-    destruct (Nat.leb (List.length (s_mods nl)) 2); [discriminate|].
-    destruct (Nat.eqb nf 0 && negb (forallb (fun m => match s_centre m with Some _ => true | None => false end) (s_mods nl)));
-      [discriminate|].
-    destruct (forallb (fun m => negb (s_fixed m) || match s_centre m with Some _ => true | None => false end) (s_mods nl))
-      eqn:Efix; [|discriminate]. cbn [negb] in Hs.
-    set (inix := map (if Nat.eqb nf 0 then cx_of else forget cx_of) (s_mods nl)) in *.
-    set (iniy := map (if Nat.eqb nf 0 then cy_of else forget cy_of) (s_mods nl)) in *.
-    set (fx := map s_fixed (s_mods nl)) in *.
-    set (radius := map radius_of (s_mods nl)) in *.
-    match type of Hs with context [trials ?wl ?run ?n 0 None] =>
-      destruct (trials wl run n 0%nat None) as [[[c w]|]| | |] eqn:Et; try discriminate end.
-    destruct (place_all W H (s_mods nl) (fst c) (snd c)) as [ms'| | |] eqn:Ep; try discriminate.
-    inversion Hs; subst out; clear Hs. cbn [s_mods].
-    apply trials_In in Et. destruct Et as [Hb|[t Ht]]; [discriminate|].
-    destruct c as [xs ys]. cbn [fst snd] in *.
-    apply layout_die_post in Ht; try (unfold fx, inix, iniy; rewrite !map_length; reflexivity).
-    destruct Ht as [(Lx & Fxx & Bx) (Ly & Fxy & By)].
-    destruct (place_all_nth _ _ _ _ _ _ Ep) as [_ N].
-    destruct (N i m Hm) as (x & y & m' & Hx & Hy & Hpl & Hm').
-    exists x, y, m'. split; [exact Hm'|]. split; [exact Hpl|].
-    assert (Hrad : nth_error radius i = Some (radius_of m)) by (unfold radius; rewrite nth_error_map, Hm; reflexivity).
-    assert (Hfx : nth_error fx i = Some (s_fixed m)) by (unfold fx; rewrite nth_error_map, Hm; reflexivity).
-    split; [|split].
-    - intros Hf Hr. rewrite Hf in Hfx. eapply Bx; eassumption.
-    - intros Hf Hr. rewrite Hf in Hfx. eapply By; eassumption.
-    - intros Hf. rewrite Hf in Hfx.
-      rewrite forallb_forall in Efix. specialize (Efix m (nth_error_In _ _ Hm)). rewrite Hf in Efix. cbn in Efix.
-      destruct (s_centre m) as [c0|] eqn:Ec; [|discriminate]. exists c0. split; [reflexivity|].
-      assert (Hix : nth_error inix i = Some (fst c0)).
-      { unfold inix. rewrite nth_error_map, Hm. cbn [option_map].
-        destruct (Nat.eqb nf 0); unfold forget, cx_of; rewrite ?Hf, Ec; reflexivity. }
-      assert (Hiy : nth_error iniy i = Some (snd c0)).
-      { unfold iniy. rewrite nth_error_map, Hm. cbn [option_map].
-        destruct (Nat.eqb nf 0); unfold forget, cy_of; rewrite ?Hf, Ec; reflexivity. }
-      rewrite (Fxx i _ Hix Hfx) in Hx. rewrite (Fxy i _ Hiy Hfx) in Hy.
-      inversion Hx; inversion Hy; auto.
+    intros Hs Hm. destruct (layout_unfold _ _ _ _ _ Hs) as (s & s' & Ei & Es & ->). cbn [s_mods].
+    destruct (init_wf _ _ Ei) as (Hwf & Em & _ & _ & Er & Ex & Ey & Hfc).
+    rewrite <- Em in Hm.
+    destruct (step_module _ _ _ _ _ _ _ Es Hwf Hm) as (x & y & m' & Hm' & Hpl & Bx & By & Fx & Fy).
+    exists x, y, m'. splits; auto.
+    - intros Hf Hr. apply Bx; auto. rewrite Er, <- Em, nth_error_map, Hm. reflexivity.
+    - intros Hf Hr. apply By; auto. rewrite Er, <- Em, nth_error_map, Hm. reflexivity.
+    - intros Hf. rewrite Em in Hm. destruct (Hfc m (nth_error_In _ _ Hm) Hf) as [c Ec]. exists c. split; [exact Ec|].
+      split.
+      + apply Fx; auto. rewrite Ex, nth_error_map, Hm. cbn [option_map]. unfold cx_of. rewrite Ec. reflexivity.
+      + apply Fy; auto. rewrite Ey, nth_error_map, Hm. cbn [option_map]. unfold cy_of. rewrite Ec. reflexivity.
   Qed.
 
+  (* ---------------- what [place] does to a module ---------------- *)
   (* the disc of a module of radius r centred at c lies in the die [0,W] x [0,H] *)
   Definition disc_in_die (W H : Qc) (c : vec) (r : Qc) : Prop :=
     Qcabs (fst c - W * half) + r <= W * half /\ Qcabs (snd c - H * half) + r <= H * half.
@@ -263,15 +552,70 @@ Section LayoutFacts.
     - intros (H1 & H2 & H3 & H4). split; qmlra.
   Qed.
 
+  Lemma disc_of_coord W H x y r : Qcabs x + r <= W * half -> Qcabs y + r <= H * half ->
+    disc_in_die W H (x + W * half, y + H * half) r.
+  Proof.
+    intros Bx By. unfold disc_in_die; cbn [fst snd].
+    replace (x + W * half - W * half) with x by ring. replace (y + H * half - H * half) with y by ring.
+    split; assumption.
+  Qed.
+
   (* position of a module in a netlist: its centre if it has one, else the
      area-weighted centre of its rectangles *)
-  Definition centroid_is (rs : list Rect) (c : vec) : Prop :=
-    rects_area rs <> 0 /\
-    Qcsum (map (fun r => cx r * area r) rs) = fst c * rects_area rs /\
-    Qcsum (map (fun r => cy r * area r) rs) = snd c * rects_area rs.
   Definition position_is (m : smod) (c : vec) : Prop :=
     s_centre m = Some c \/ (s_centre m = None /\ centroid_is (s_rects m) c).
 
+  Lemma place_position W H (m : smod) x y m' : place W H m x y = Ok m' -> s_fixed m = false ->
+    position_is m' (x + W * half, y + H * half).
+  Proof.
+    unfold place. intros Hpl Hf. rewrite Hf in Hpl. cbn [negb] in Hpl. rewrite andb_true_r in Hpl.
+    destruct (s_hard m) eqn:Eh; cbn [andb] in Hpl.
+    - destruct (recenter (s_rects m) (x + W * half, y + H * half)) as [rs| | |] eqn:Er; try discriminate.
+      inversion Hpl; subst m'; clear Hpl. unfold position_is; cbn [s_centre s_rects].
+      destruct (s_terminal m); cbn [negb]; [left; reflexivity|right].
+      split; [reflexivity|]. eapply recenter_centroid_is; eassumption.
+    - inversion Hpl; subst m'. left. reflexivity.
+  Qed.
+
+  (* a movable hard module: every rectangle moved by (assigned centre - area-weighted centre of the
+     rectangles it had), in both axes; afterwards the rectangles are centred on the assigned centre *)
+  Lemma place_rigid_exact W H (m : smod) x y m' : place W H m x y = Ok m' ->
+    s_fixed m = false -> s_hard m = true ->
+    rects_area (s_rects m) <> 0 /\
+    s_rects m' = map (shift (x + W * half - gx (s_rects m)) (y + H * half - gy (s_rects m))) (s_rects m) /\
+    centroid_is (s_rects m') (x + W * half, y + H * half).
+  Proof.
+    unfold place. intros Hpl Hf Hh. rewrite Hf, Hh in Hpl. cbn [negb andb] in Hpl.
+    destruct (recenter (s_rects m) (x + W * half, y + H * half)) as [rs| | |] eqn:Er; try discriminate.
+    inversion Hpl; subst m'; clear Hpl. cbn [s_rects].
+    destruct (recenter_exact _ _ _ Er) as [E Ers]. cbn [fst snd] in Ers. splits; auto.
+    eapply recenter_centroid_is; eassumption.
+  Qed.
+
+  Lemma place_fixed_form W H (m : smod) x y m' : place W H m x y = Ok m' -> s_fixed m = true ->
+    m' = mkSmod (if s_hard m && negb (s_terminal m) then None else Some (x + W * half, y + H * half))
+                (s_fixed m) (s_hard m) (s_terminal m) (s_rects m) (s_other m).
+  Proof.
+    unfold place. intros Hpl Hf. rewrite Hf in Hpl. cbn [negb] in Hpl. rewrite andb_false_r in Hpl.
+    inversion Hpl. rewrite Hf. reflexivity.
+  Qed.
+
+  Lemma place_same W H (m : smod) x y (m' : smod) : place W H m x y = Ok m' ->
+    s_other m' = s_other m /\ s_fixed m' = s_fixed m /\ s_hard m' = s_hard m /\
+    s_terminal m' = s_terminal m /\ map shape_of (s_rects m') = map shape_of (s_rects m) /\
+    rects_area (s_rects m') = rects_area (s_rects m) /\
+    (s_hard m && negb (s_fixed m) = false -> s_rects m' = s_rects m) /\
+    (exists dx dy, s_rects m' = map (shift dx dy) (s_rects m)).
+  Proof.
+    unfold place. intros Hp. destruct (s_hard m && negb (s_fixed m)) eqn:E.
+    - destruct (recenter (s_rects m) (x + W * half, y + H * half)) as [rs| | |] eqn:Er; try discriminate.
+      inversion Hp; subst m'; cbn [s_other s_fixed s_hard s_terminal s_rects]. destruct (recenter_rigid _ _ _ Er) as (dx & dy & Ers). subst rs.
+      rewrite shift_shape, shift_area. splits; auto; [discriminate|]. exists dx, dy. reflexivity.
+    - inversion Hp; subst m'; cbn [s_other s_fixed s_hard s_terminal s_rects]. splits; auto.
+      exists 0, 0. rewrite map_shift_zero. reflexivity.
+  Qed.
+
+  (* ---------------- a single call on a fresh object: the property ---------------- *)
   (* C14: every movable module whose disc fits in the die ends with its disc in the die *)
   Theorem layout_discs W H nf (nl out : snet) i m :
     spectral_layout thr rnd produce niter radius_of W H nf nl = Ok out ->
@@ -282,17 +626,8 @@ Section LayoutFacts.
     intros Hs Hm Hf HrW HrH.
     destruct (layout_module W H nf nl out i m Hs Hm) as (x & y & m' & Hm' & Hpl & Bx & By & _).
     exists m', (x + W * half, y + H * half). split; [exact Hm'|]. split.
-    - unfold place in Hpl. rewrite Hf in Hpl. cbn [negb] in Hpl. rewrite andb_true_r in Hpl.
-      destruct (s_hard m) eqn:Eh; cbn [andb] in Hpl.
-      + destruct (recenter (s_rects m) (x + W * half, y + H * half)) as [rs| | |] eqn:Er; try discriminate.
-        inversion Hpl; subst m'; clear Hpl. unfold position_is; cbn [s_centre s_rects].
-        destruct (s_terminal m); cbn [negb]; [left; reflexivity|right].
-        split; [reflexivity|]. apply recenter_centroid in Er. destruct Er as (Ea & Hne & Ex & Ey).
-        unfold centroid_is. rewrite Ea in *. auto.
-      + inversion Hpl; subst m'. left. reflexivity.
-    - unfold disc_in_die; cbn [fst snd].
-      replace (x + W * half - W * half) with x by ring. replace (y + H * half - H * half) with y by ring.
-      split; [apply Bx|apply By]; assumption.
+    - eapply place_position; eassumption.
+    - apply disc_of_coord; auto.
   Qed.
 
   (* fixed modules: rectangles and flags as they were; the centre is the original one
@@ -308,8 +643,7 @@ Section LayoutFacts.
     intros Hs Hm Hf.
     destruct (layout_module W H nf nl out i m Hs Hm) as (x & y & m' & Hm' & Hpl & _ & _ & Hfix).
     destruct (Hfix Hf) as (c & Ec & Ex & Ey). exists c. split; [exact Ec|].
-    rewrite Hm'. f_equal. unfold place in Hpl. rewrite Hf in Hpl. cbn [negb] in Hpl. rewrite andb_false_r in Hpl.
-    inversion Hpl; subst m' x y. rewrite Hf.
+    rewrite Hm'. f_equal. rewrite (place_fixed_form _ _ _ _ _ _ Hpl Hf). subst x y.
     replace (fst c - W * half + W * half) with (fst c) by ring.
     replace (snd c - H * half + H * half) with (snd c) by ring.
     destruct c; reflexivity.
@@ -323,26 +657,26 @@ Section LayoutFacts.
   Proof.
     intros Hs Hm Hf Hh.
     destruct (layout_module W H nf nl out i m Hs Hm) as (x & y & m' & Hm' & Hpl & _).
-    unfold place in Hpl. rewrite Hf, Hh in Hpl. cbn [negb andb] in Hpl.
-    destruct (recenter (s_rects m) (x + W * half, y + H * half)) as [rs| | |] eqn:Er; try discriminate.
-    inversion Hpl; subst m'; clear Hpl.
-    destruct (recenter_rigid _ _ _ Er) as (dx & dy & E).
-    exists (mkSmod (if negb (s_terminal m) then None else Some (x + W * half, y + H * half))
-                   false true (s_terminal m) rs (s_other m)), dx, dy.
-    split; [exact Hm'|exact E].
+    destruct (place_rigid_exact _ _ _ _ _ _ Hpl Hf Hh) as (_ & E & _).
+    exists m'. eexists; eexists. split; [exact Hm'|exact E].
   Qed.
 
-  Lemma place_same W H (m : smod) x y (m' : smod) : place W H m x y = Ok m' ->
-    s_other m' = s_other m /\ s_fixed m' = s_fixed m /\ s_hard m' = s_hard m /\
-    s_terminal m' = s_terminal m /\ map shape_of (s_rects m') = map shape_of (s_rects m) /\
-    rects_area (s_rects m') = rects_area (s_rects m) /\
-    (s_hard m && negb (s_fixed m) = false -> s_rects m' = s_rects m).
+  (* ... and the vector is (computed position - area-weighted centre of the module's rectangles) in
+     BOTH axes: the module ends centred on the computed position c, whose disc is in the die; an axis
+     in which the module already was on c stands still, the other axis still moves *)
+  Theorem layout_rigid_exact W H nf (nl out : snet) i m :
+    spectral_layout thr rnd produce niter radius_of W H nf nl = Ok out ->
+    nth_error (s_mods nl) i = Some m -> s_fixed m = false -> s_hard m = true ->
+    exists m' c, nth_error (s_mods out) i = Some m' /\
+      s_rects m' = map (shift (fst c - gx (s_rects m)) (snd c - gy (s_rects m))) (s_rects m) /\
+      centroid_is (s_rects m') c /\
+      (radius_of m <= W * half -> radius_of m <= H * half -> disc_in_die W H c (radius_of m)).
   Proof.
-    unfold place. intros Hp. destruct (s_hard m && negb (s_fixed m)) eqn:E.
-    - destruct (recenter (s_rects m) (x + W * half, y + H * half)) as [rs| | |] eqn:Er; try discriminate.
-      inversion Hp; subst m'; cbn [s_other s_fixed s_hard s_terminal s_rects]. destruct (recenter_rigid _ _ _ Er) as (dx & dy & Ers). subst rs.
-      rewrite shift_shape, shift_area. splits; auto. discriminate.
-    - inversion Hp; subst m'; cbn [s_other s_fixed s_hard s_terminal s_rects]. splits; auto.
+    intros Hs Hm Hf Hh.
+    destruct (layout_module W H nf nl out i m Hs Hm) as (x & y & m' & Hm' & Hpl & Bx & By & _).
+    destruct (place_rigid_exact _ _ _ _ _ _ Hpl Hf Hh) as (_ & E & Hc).
+    exists m', (x + W * half, y + H * half). cbn [fst snd]. splits; auto.
+    intros HrW HrH. apply disc_of_coord; auto.
   Qed.
 
   (* areas and nets: the same modules in the same order with the same payload (name,
@@ -359,12 +693,220 @@ Section LayoutFacts.
         rects_area (s_rects m') = rects_area (s_rects m) /\
         (s_hard m && negb (s_fixed m) = false -> s_rects m' = s_rects m).
   Proof.
-    intros Hs. assert (Hs' := Hs). unfold spectral_layout in Hs.
-    dres Hs. inversion Hs; subst out; clear Hs. cbn [s_nets s_adj s_mods].
-    splits; auto.
-    - match goal with Hp : place_all _ _ _ _ _ = Ok _ |- _ => apply place_all_nth in Hp; destruct Hp as [L _]; exact L end.
-    - intros i m Hm.
-      destruct (layout_module W H nf nl _ i m Hs' Hm) as (x & y & m' & Hm' & Hpl & _).
-      cbn [s_mods] in Hm'. exists m'. split; [exact Hm'|]. eapply place_same; eassumption.
+    intros Hs. destruct (layout_unfold _ _ _ _ _ Hs) as (s & s' & Ei & Es & Eo).
+    destruct (init_wf _ _ Ei) as (Hwf & Em & Ea & En & _).
+    destruct (step_frame _ _ _ _ _ Es Hwf) as (_ & Ea' & En' & _ & _ & L & _).
+    subst out. cbn [s_nets s_adj s_mods]. splits; try congruence.
+    intros i m Hm.
+    destruct (layout_module W H nf nl _ i m Hs Hm) as (x & y & m' & Hm' & Hpl & _).
+    cbn [s_mods] in Hm'. exists m'. split; [exact Hm'|].
+    destruct (place_same _ _ _ _ _ _ Hpl) as (H1 & H2 & H3 & H4 & H5 & H6 & H7 & _). splits; auto.
+  Qed.
+
+  (* ---------------- what relates a module to what it was when the object was built ---------------- *)
+  Definition rel (m0 m : smod) : Prop :=
+    s_other m = s_other m0 /\ s_fixed m = s_fixed m0 /\ s_hard m = s_hard m0 /\ s_terminal m = s_terminal m0 /\
+    (exists dx dy, s_rects m = map (shift dx dy) (s_rects m0)) /\
+    (s_hard m0 && negb (s_fixed m0) = false -> s_rects m = s_rects m0).
+
+  Lemma rel_refl m : rel m m.
+  Proof. unfold rel. splits; auto. exists 0, 0. rewrite map_shift_zero. reflexivity. Qed.
+
+  Lemma rel_place W H (m0 m : smod) x y m' : rel m0 m -> place W H m x y = Ok m' -> rel m0 m'.
+  Proof.
+    intros (R1 & R2 & R3 & R4 & (dx & dy & R5) & R6) Hpl.
+    destruct (place_same _ _ _ _ _ _ Hpl) as (H1 & H2 & H3 & H4 & _ & _ & H7 & (ex & ey & H8)).
+    unfold rel. splits; try congruence.
+    - exists (dx + ex), (dy + ey). rewrite H8, R5, map_shift_shift. reflexivity.
+    - intros E. rewrite H7; [apply R6; exact E|]. rewrite R2, R3. exact E.
+  Qed.
+
+  Lemma rel_shapes (m0 m : smod) : rel m0 m ->
+    map shape_of (s_rects m) = map shape_of (s_rects m0) /\ rects_area (s_rects m) = rects_area (s_rects m0).
+  Proof.
+    intros (_ & _ & _ & _ & (dx & dy & R5) & _). rewrite R5, shift_shape, shift_area. split; reflexivity.
+  Qed.
+
+  (* the state of the object in terms of the netlist it was built from *)
+  Definition inv (nl : snet) (s : sess) : Prop :=
+    sess_wf s /\ List.length (ss_mods s) = List.length (s_mods nl) /\
+    ss_adj s = s_adj nl /\ ss_nets s = s_nets nl /\ ss_radius s = map radius_of (s_mods nl) /\
+    (forall i m0, nth_error (s_mods nl) i = Some m0 -> exists m, nth_error (ss_mods s) i = Some m /\ rel m0 m) /\
+    (forall i m0, nth_error (s_mods nl) i = Some m0 -> s_fixed m0 = true ->
+       exists c, s_centre m0 = Some c /\ nth_error (ss_cx s) i = Some (fst c) /\ nth_error (ss_cy s) i = Some (snd c)).
+
+  Lemma inv_init (nl : snet) (s : sess) : sess_init radius_of nl = Ok s -> inv nl s.
+  Proof.
+    intros Ei. destruct (init_wf _ _ Ei) as (Hwf & Em & Ea & En & Er & Ex & Ey & Hfc).
+    unfold inv. rewrite Em. splits; auto.
+    - intros i m0 Hm. exists m0. split; [exact Hm|apply rel_refl].
+    - intros i m0 Hm Hf. destruct (Hfc m0 (nth_error_In _ _ Hm) Hf) as [c Ec]. exists c. split; [exact Ec|].
+      rewrite Ex, Ey, !nth_error_map, Hm. cbn [option_map]. unfold cx_of, cy_of. rewrite Ec. auto.
+  Qed.
+
+  Lemma inv_step W H nf (nl : snet) (s s' : sess) : inv nl s ->
+    sess_step thr rnd produce niter W H nf s = Ok s' -> inv nl s'.
+  Proof.
+    intros (Hwf & L & Ea & En & Er & Hrel & Hfix) Es.
+    destruct (step_frame _ _ _ _ _ Es Hwf) as (Hwf' & Ea' & En' & Efx' & Er' & L' & Hc).
+    unfold inv. splits; try congruence.
+    - intros i m0 Hm0. destruct (Hrel i m0 Hm0) as (m & Hm & R).
+      destruct (step_module _ _ _ _ _ _ _ Es Hwf Hm) as (x & y & m' & Hm' & Hpl & _).
+      exists m'. split; [exact Hm'|]. eapply rel_place; eassumption.
+    - intros i m0 Hm0 Hf. destruct (Hfix i m0 Hm0 Hf) as (c & Ec & Hx & Hy).
+      exists c. split; [exact Ec|].
+      destruct (Hrel i m0 Hm0) as (m & Hm & (_ & R2 & _)).
+      assert (Hfx : nth_error (ss_fx s) i = Some true).
+      { destruct Hwf as (-> & _). rewrite nth_error_map, Hm. cbn [option_map]. rewrite R2, Hf. reflexivity. }
+      destruct (Hc i Hfx) as [-> ->]. auto.
   Qed.
 End LayoutFacts.
+
+(* ------------------------------------------------------------------ several calls on one object *)
+Section SessionFacts.
+  Variable thr : Qc.
+  Context {A B : Type}.
+  Notation smod := (smod A).
+  Notation snet := (snet A B).
+  Notation sess := (sess A B).
+  Variable radius_of : smod -> Qc.
+
+  Lemma sess_run_app calls1 : forall calls2 (s : sess),
+    sess_run thr (calls1 ++ calls2) s =
+    match sess_run thr calls1 s with Ok s1 => sess_run thr calls2 s1 | e => e end.
+  Proof.
+    induction calls1 as [|c calls1 IH]; intros calls2 s; cbn [app sess_run]; [reflexivity|].
+    destruct (sess_step thr (c_rnd c) (c_produce c) (c_niter c) (c_W c) (c_H c) (c_nf c) s) as [s1| | |]; auto.
+  Qed.
+
+  Lemma inv_run (nl : snet) calls : forall (s s' : sess),
+    inv radius_of nl s -> sess_run thr calls s = Ok s' -> inv radius_of nl s'.
+  Proof.
+    induction calls as [|c calls IH]; intros s s' Hi Hr; cbn [sess_run] in Hr.
+    - inversion Hr; subst; exact Hi.
+    - destruct (sess_step thr (c_rnd c) (c_produce c) (c_niter c) (c_W c) (c_H c) (c_nf c) s) as [s1| | |] eqn:Es;
+        try discriminate.
+      eapply IH; [|exact Hr]. eapply inv_step; eassumption.
+  Qed.
+
+  (* the LAST call of any sequence of calls on one object, in terms of the modules the object was
+     built from (m0), the modules it holds just before the call (m1: the current values) and after (m2) *)
+  Theorem session_last (nl : snet) calls c (s0 s2 : sess) i m0 :
+    sess_init radius_of nl = Ok s0 -> sess_run thr (calls ++ [c]) s0 = Ok s2 ->
+    nth_error (s_mods nl) i = Some m0 ->
+    exists (s1 : sess) m1 m2 x y,
+      sess_run thr calls s0 = Ok s1 /\ nth_error (ss_mods s1) i = Some m1 /\ rel m0 m1 /\
+      nth_error (ss_mods s2) i = Some m2 /\ place (c_W c) (c_H c) m1 x y = Ok m2 /\
+      (s_fixed m0 = false -> radius_of m0 <= c_W c * half -> Qcabs x + radius_of m0 <= c_W c * half) /\
+      (s_fixed m0 = false -> radius_of m0 <= c_H c * half -> Qcabs y + radius_of m0 <= c_H c * half) /\
+      (s_fixed m0 = true -> exists c0, s_centre m0 = Some c0 /\ x = fst c0 - c_W c * half /\ y = snd c0 - c_H c * half).
+  Proof.
+    intros Ei Hr Hm0. rewrite sess_run_app in Hr.
+    destruct (sess_run thr calls s0) as [s1| | |] eqn:E1; try discriminate.
+    cbn [sess_run] in Hr.
+    destruct (sess_step thr (c_rnd c) (c_produce c) (c_niter c) (c_W c) (c_H c) (c_nf c) s1) as [s2'| | |] eqn:Es;
+      try discriminate.
+    inversion Hr; subst s2'; clear Hr.
+    pose proof (inv_run nl calls s0 s1 (inv_init _ _ _ Ei) E1) as (Hwf & L & Ea & En & Er & Hrel & Hfix).
+    destruct (Hrel i m0 Hm0) as (m1 & Hm1 & R).
+    destruct (step_module _ _ _ _ _ _ _ _ _ _ _ Es Hwf Hm1) as (x & y & m2 & Hm2 & Hpl & Bx & By & Fx & Fy).
+    pose proof R as (_ & R2 & _).
+    assert (Hrad : nth_error (ss_radius s1) i = Some (radius_of m0)) by (rewrite Er, nth_error_map, Hm0; reflexivity).
+    exists s1, m1, m2, x, y. splits; auto.
+    - intros Hf Hle. apply Bx; auto. congruence.
+    - intros Hf Hle. apply By; auto. congruence.
+    - intros Hf. destruct (Hfix i m0 Hm0 Hf) as (c0 & Ec & Hx & Hy). exists c0. split; [exact Ec|].
+      split; [apply Fx|apply Fy]; auto; congruence.
+  Qed.
+
+  (* C14 for the n-th call on one object: discs in the die OF THAT CALL *)
+  Theorem session_discs (nl : snet) calls c (s0 s2 : sess) i m0 :
+    sess_init radius_of nl = Ok s0 -> sess_run thr (calls ++ [c]) s0 = Ok s2 ->
+    nth_error (s_mods nl) i = Some m0 -> s_fixed m0 = false ->
+    radius_of m0 <= c_W c * half -> radius_of m0 <= c_H c * half ->
+    exists m2 p, nth_error (ss_mods s2) i = Some m2 /\ position_is m2 p /\ disc_in_die (c_W c) (c_H c) p (radius_of m0).
+  Proof.
+    intros Ei Hr Hm0 Hf HW HH.
+    destruct (session_last nl calls c s0 s2 i m0 Ei Hr Hm0) as (s1 & m1 & m2 & x & y & _ & _ & R & Hm2 & Hpl & Bx & By & _).
+    exists m2, (x + c_W c * half, y + c_H c * half). split; [exact Hm2|]. split.
+    - eapply place_position; [exact Hpl|]. destruct R as (_ & R2 & _). congruence.
+    - apply disc_of_coord; auto.
+  Qed.
+
+  (* fixed modules after any non-empty sequence of calls: rectangles, flags and payload as built; the
+     centre is the one the object was built with (dropped for hard non-terminal modules) *)
+  Theorem session_fixed (nl : snet) calls c (s0 s2 : sess) i m0 :
+    sess_init radius_of nl = Ok s0 -> sess_run thr (calls ++ [c]) s0 = Ok s2 ->
+    nth_error (s_mods nl) i = Some m0 -> s_fixed m0 = true ->
+    exists c0, s_centre m0 = Some c0 /\
+      nth_error (ss_mods s2) i =
+      Some (mkSmod (if s_hard m0 && negb (s_terminal m0) then None else Some c0)
+                   (s_fixed m0) (s_hard m0) (s_terminal m0) (s_rects m0) (s_other m0)).
+  Proof.
+    intros Ei Hr Hm0 Hf.
+    destruct (session_last nl calls c s0 s2 i m0 Ei Hr Hm0) as (s1 & m1 & m2 & x & y & _ & _ & R & Hm2 & Hpl & _ & _ & Hfix).
+    destruct (Hfix Hf) as (c0 & Ec & Ex & Ey). exists c0. split; [exact Ec|].
+    destruct R as (R1 & R2 & R3 & R4 & _ & R6).
+    rewrite Hm2. f_equal. rewrite (place_fixed_form _ _ _ _ _ _ Hpl) by congruence.
+    rewrite R1, R2, R3, R4, R6 by (rewrite Hf; apply andb_false_r). subst x y.
+    replace (fst c0 - c_W c * half + c_W c * half) with (fst c0) by ring.
+    replace (snd c0 - c_H c * half + c_H c * half) with (snd c0) by ring.
+    destruct c0; reflexivity.
+  Qed.
+
+  (* movable hard modules: the n-th call moves the rectangles the module has NOW (m1) by
+     (computed position - their area-weighted centre) in both axes - zero exactly in the axes in which the
+     module already is on the computed position, e.g. in both when a placement is repeated -;
+     relative to the netlist the object was built from the module is still a translate *)
+  Theorem session_rigid (nl : snet) calls c (s0 s2 : sess) i m0 :
+    sess_init radius_of nl = Ok s0 -> sess_run thr (calls ++ [c]) s0 = Ok s2 ->
+    nth_error (s_mods nl) i = Some m0 -> s_fixed m0 = false -> s_hard m0 = true ->
+    exists (s1 : sess) m1 m2 p,
+      sess_run thr calls s0 = Ok s1 /\ nth_error (ss_mods s1) i = Some m1 /\ nth_error (ss_mods s2) i = Some m2 /\
+      s_rects m2 = map (shift (fst p - gx (s_rects m1)) (snd p - gy (s_rects m1))) (s_rects m1) /\
+      centroid_is (s_rects m2) p /\
+      (radius_of m0 <= c_W c * half -> radius_of m0 <= c_H c * half -> disc_in_die (c_W c) (c_H c) p (radius_of m0)) /\
+      (exists dx dy, s_rects m1 = map (shift dx dy) (s_rects m0)) /\
+      (exists dx dy, s_rects m2 = map (shift dx dy) (s_rects m0)).
+  Proof.
+    intros Ei Hr Hm0 Hf Hh.
+    destruct (session_last nl calls c s0 s2 i m0 Ei Hr Hm0) as (s1 & m1 & m2 & x & y & E1 & Hm1 & R & Hm2 & Hpl & Bx & By & _).
+    pose proof (rel_place _ _ _ _ _ _ _ R Hpl) as (_ & _ & _ & _ & R5' & _).
+    pose proof R as (_ & R2 & R3 & _ & R5 & _).
+    destruct (place_rigid_exact _ _ _ _ _ _ Hpl) as (_ & E & Hc); try congruence.
+    exists s1, m1, m2, (x + c_W c * half, y + c_H c * half). cbn [fst snd]. splits; auto.
+    intros HW HH. apply disc_of_coord; auto.
+  Qed.
+
+  (* areas and nets after any sequence of calls *)
+  Theorem session_same (nl : snet) calls (s0 s : sess) :
+    sess_init radius_of nl = Ok s0 -> sess_run thr calls s0 = Ok s ->
+    ss_nets s = s_nets nl /\ ss_adj s = s_adj nl /\ List.length (ss_mods s) = List.length (s_mods nl) /\
+    forall i m0, nth_error (s_mods nl) i = Some m0 ->
+      exists m, nth_error (ss_mods s) i = Some m /\
+        s_other m = s_other m0 /\ s_fixed m = s_fixed m0 /\ s_hard m = s_hard m0 /\ s_terminal m = s_terminal m0 /\
+        map shape_of (s_rects m) = map shape_of (s_rects m0) /\ rects_area (s_rects m) = rects_area (s_rects m0) /\
+        (s_hard m0 && negb (s_fixed m0) = false -> s_rects m = s_rects m0) /\
+        (exists dx dy, s_rects m = map (shift dx dy) (s_rects m0)).
+  Proof.
+    intros Ei Hr. pose proof (inv_run nl calls s0 s (inv_init _ _ _ Ei) Hr) as (_ & L & Ea & En & _ & Hrel & _).
+    splits; auto. intros i m0 Hm0. destruct (Hrel i m0 Hm0) as (m & Hm & R). exists m. split; [exact Hm|].
+    destruct (rel_shapes _ _ R) as [S1 S2]. destruct R as (R1 & R2 & R3 & R4 & R5 & R6). splits; auto.
+  Qed.
+
+  (* one call on a fresh object is the one-call session *)
+  Lemma layout_is_session rnd produce niter W H nf (nl : snet) :
+    spectral_layout thr rnd produce niter radius_of W H nf nl =
+    match sess_init radius_of nl with
+    | Ok s0 => match sess_run thr [mkCall W H nf rnd produce niter] s0 with
+               | Ok s => Ok (mkSnet (ss_mods s) (ss_adj s) (ss_nets s))
+               | EmptyMin => EmptyMin | ZeroDiv => ZeroDiv | AssertFail => AssertFail
+               end
+    | EmptyMin => EmptyMin | ZeroDiv => ZeroDiv | AssertFail => AssertFail
+    end.
+  Proof.
+    unfold spectral_layout. destruct (sess_init radius_of nl) as [s0| | |]; auto.
+    cbn [sess_run c_rnd c_produce c_niter c_W c_H c_nf].
+    destruct (sess_step thr rnd produce niter W H nf s0) as [s| | |]; reflexivity.
+  Qed.
+End SessionFacts.
